@@ -15,6 +15,7 @@ Checks (all written from the statement, modular so that one defect shows under o
 from __future__ import annotations
 
 import itertools
+import time
 
 import numpy as np
 
@@ -298,13 +299,21 @@ def run(tier="quick", seed=0, repo="/repo"):
         _enumerate(rec, tier, seed, bound)
     except O.Abort:
         bound["text"] = bound.get("text", "") + " [enumeration stopped early: calls into the real code did not terminate]"
-    return rec.result(RULE, bound.get("text", "stopped before the bound was fixed"), exhaustive=False)
+    return rec.result(RULE, bound.get("text", "stopped before the bound was fixed"), exhaustive=False, section_seconds=bound.get("timing", {}))
 
 
 def _enumerate(rec, tier, seed, bound_out):
     from skchange.change_detectors.seeded_binseg import make_seeded_intervals
     rng = np.random.default_rng(seed)
     quick = tier == "quick"
+    t0 = [time.time(), None]
+    timing = bound_out.setdefault("timing", {})
+
+    def tick(label):
+        now = time.time()
+        if t0[1] is not None:
+            timing[t0[1]] = round(timing.get(t0[1], 0.0) + now - t0[0], 1)
+        t0[0], t0[1] = now, label
     gs = [1.1, 1.5, 2.0] if quick else [1.01, 1.1, 1.25, 1.5, 1.75, 2.0]
     ms = [1, 2, 3] if quick else [1, 2, 3, 4, 5]
     n_int = 16 if quick else 48
@@ -316,6 +325,7 @@ def _enumerate(rec, tier, seed, bound_out):
     bound_out["text"] = (f"intervals: n<={n_int}, m in {ms}, M in 2m..n+2 and 200, g in {gs}; greedy kernel: all <=3-subsets of sub-intervals of [0,{n0}] + "
                          f"{n_sys} random systems (n<=12/24); run: table scores n<={max(n_run)}, built-in n in {ns_b}, p<=2; detector: n in {ns_d}")
 
+    tick("1")
     # (1) candidate intervals, exhaustive over the box
     for n in range(2, n_int + 1):
         for m, M, g in hyper(n, ms, gs):
@@ -323,6 +333,7 @@ def _enumerate(rec, tier, seed, bound_out):
             nt = check_intervals(rec, inp)
             rec.case(("int", n, m, M, g), nt, inp if (n, m, g) == (9, 2, 1.5) else None)
 
+    tick("2")
     # (2) greedy kernel, exhaustive on explicit interval systems over [0,4] (all sub-intervals of length >= 2)
     subs = [(s, e) for s in range(n0 + 1) for e in range(s + 2, n0 + 1)]
     for K in (1, 2, 3):
@@ -365,6 +376,7 @@ def _enumerate(rec, tier, seed, bound_out):
         for th, nt in zip(ths, check_greedy_kernel(rec, inp)):
             rec.case(("gr", it, th), nt, {"starts": starts, "ends": ends, "maximizers": maxi, "scores": scores, "threshold": th} if it == 0 else None)
 
+    tick("3")
     # (3) run_seeded_binseg: user-defined table scores (all hyper-parameters) and built-in scores
     for n in n_run:
         X0 = np.zeros((n, 1))
@@ -395,6 +407,7 @@ def _enumerate(rec, tier, seed, bound_out):
                             for i, nt in enumerate(check_run(rec, inp)):
                                 rec.case(("run", name, n, p, m, M, g, kind, i), nt, None)
 
+    tick("4")
     # (4) detector class: fixed scales chosen from the scores, and tuned thresholds
     for n in ns_d:
         for p in ((1,) if quick and n not in (4, 8) else (1, 2)):
@@ -438,6 +451,7 @@ def _enumerate(rec, tier, seed, bound_out):
                                     d["Xfit"] = O.gen_data(rng, n + 1, p, "none")
                                 nt, _ = check_detector(rec, d)
                                 rec.case(("det", str(spec), n, p, m, M, g, "tuned", level), nt, None)
+    tick("end")
 
 
 def replay(inp, repo="/repo"):
